@@ -58,8 +58,22 @@ def base_type(t):
     return (t or '').replace('const ', '').strip()
 
 
+class Lossy(Exception):
+    """the symbolic value is converted to a type that cannot hold every value of its digit-count class"""
+
+
 class Machine:
     """interprets one wrapper for one concrete digit count L"""
+    val_bits = 64            # width of the (unsigned) type the symbolic value has
+
+    def val_range(self, v):
+        """closed interval of  value / 10^shift  for a value with exactly L digits in its type"""
+        d = self.L - v.b
+        top = ((1 << self.val_bits) - 1) // (10 ** v.b)
+        if d <= 0:
+            return 0, 0
+        lo = 0 if self.L == 1 and v.b == 0 else 10 ** (d - 1)
+        return lo, min(10 ** d - 1, top)
 
     def __init__(self, prog, length_result, log):
         self.prog = prog
@@ -127,6 +141,12 @@ class Machine:
                 return v & ((1 << UINT_BITS[t]) - 1)
             if t == 'bool':
                 return 1 if v else 0
+        if isinstance(v, Sym) and v.kind == 'val' and (t in UINT_BITS or t in SINT_BITS):
+            tb = UINT_BITS.get(t) or (SINT_BITS[t] - 1)
+            lo, hi = self.val_range(v)
+            if hi > (1 << tb) - 1:
+                raise Lossy('a value with %d digits (up to %d) is converted to %s, which holds at most %d' % (
+                    self.L - v.b, hi, t, (1 << tb) - 1))
         return v
 
     def arith(self, op, a, b, n):
@@ -153,6 +173,19 @@ class Machine:
             return Sym('ptr', a.a, a.b + (b if op == '+' else -b))
         if isinstance(b, Sym) and b.kind == 'ptr' and isinstance(a, int) and op == '+':
             return Sym('ptr', b.a, b.b + a)
+        if isinstance(a, Sym) and a.kind == 'val' and isinstance(b, int) and op in ('<', '<=', '>', '>=', '==', '!='):
+            # comparison of the symbolic value with a constant: decided when every value of the digit-count class
+            # gives the same answer
+            lo, hi = self.val_range(a)
+            f_ = {'<': lambda x: x < b, '<=': lambda x: x <= b, '>': lambda x: x > b, '>=': lambda x: x >= b,
+                  '==': lambda x: x == b, '!=': lambda x: x != b}[op]
+            pts = {lo, hi, min(max(b - 1, lo), hi), min(max(b, lo), hi), min(max(b + 1, lo), hi)}
+            outs = {bool(f_(x)) for x in pts}
+            if len(outs) == 1:
+                return int(outs.pop())
+            raise Unsupported('comparison %r %s %d is not uniform over the values with %d digits' % (a, op, b, self.L))
+        if isinstance(b, Sym) and b.kind == 'val' and isinstance(a, int) and op in ('<', '<=', '>', '>=', '==', '!='):
+            return self.arith({'<': '>', '<=': '>=', '>': '<', '>=': '<=', '==': '==', '!=': '!='}[op], b, a, n)
         if isinstance(a, Sym) and a.kind == 'val' and isinstance(b, int) and b == 10:
             if op == '%':
                 return Sym('digit', a.a, a.b)
